@@ -119,6 +119,7 @@ def check_txt(case: Tuple[Tuple[Any, Any], ...]) -> Tuple[Optional[Dict[str, Any
         info = ServiceInfo("_a._tcp.local.", "x._a._tcp.local.", 80, properties=props)
         text = info.text
         back = ServiceInfo("_a._tcp.local.", "x._a._tcp.local.", 80, properties=text).properties
+        own = info.properties  # what the describing object itself reports back
         ref = nm.parse_txt(text)
     except Exception as e:  # noqa: BLE001
         return ({"what": f"C19 properties {case!r}: {type(e).__name__}: {e}", "replay": {"kind": "txt"},
@@ -128,6 +129,9 @@ def check_txt(case: Tuple[Tuple[Any, Any], ...]) -> Tuple[Optional[Dict[str, Any
         bad = f"TXT bytes {text!r} parse (RFC 6763 s.6) to {ref}, the dictionary means {want}"
     elif back != want:
         bad = f"the library reads its own TXT bytes {text!r} back as {back}, expected {want}"
+    elif {k: (v or None) for k, v in own.items()} != want or not all(
+            isinstance(k, bytes) and (v is None or isinstance(v, bytes)) for k, v in own.items()):
+        bad = f"the describing object reports properties {own}, the TXT bytes mean {want} (keys and values as bytes)"
     if bad:
         return ({"what": f"C19 properties {case!r}: {bad}", "replay": {"kind": "txt"}, "signature": {"check": "txt"}},
                 "mismatch")
